@@ -216,6 +216,10 @@ class CliSim:
                     cols = rng.choice([['lon', 'lat'], ['lon', 'lat'], ['x_pos', 'y_pos']])
                     inv.update({'rows': rows, 'cols': cols, 'policy': rng.choice([None, 'error', 'drop', 'fill']),
                                 'dim': rng.choice([None, None, 'station']), 'out': out_name('.nc')})
+                    if rng.random() < 0.2:
+                        labels_ = list(range(len(rows) + 1))
+                        rng.shuffle(labels_)
+                        inv['row_labels'] = labels_
                 else:
                     fmt = rng.choice(list(FORMAT_EXT))
                     explicit = rng.random() < 0.5
@@ -370,13 +374,15 @@ class CliSim:
             if uf == 'points_outside_error':
                 base = next((r for r in rows if r[0] is not None), [0.0, 0.0, ''])
                 rows.append([base[0] + 500.0, base[1] + 500.0, 'miss'])
+            labels = inv.get('row_labels')      # a table written by DataFrame.to_csv(): an unnamed first column of row labels
             with open(csv, 'w', encoding='utf-8') as f:
-                f.write(','.join(header) + '\n')
-                for r in rows:
+                f.write((',' if labels else '') + ','.join(header) + '\n')
+                for n_, r in enumerate(rows):
+                    lead = f'{labels[n_ % len(labels)]},' if labels else ''
                     if r[0] is None:
-                        f.write(',,\n')
+                        f.write(lead + ',,\n')
                     else:
-                        f.write(f'{r[0]!r},{r[1]!r},{r[2]}\n')
+                        f.write(lead + f'{r[0]!r},{r[1]!r},{r[2]}\n')
             if uf == 'csv_missing':
                 csv = os.path.join(scratch, 'no_such_points.csv')
             argv += [input_path, csv, out]
